@@ -81,6 +81,9 @@ impl BBSplusCommitment {
     ///
     /// * A result containing the `Commitment` or an error.
     pub fn from_bytes(bytes: &[u8]) -> Result<Self, Error> {
+        if bytes.len() < G1Projective::COMPRESSED_BYTES {
+            return Err(Error::InvalidCommitment);
+        }
         let commitment = parse_g1_projective(&bytes[0..G1Projective::COMPRESSED_BYTES])
             .map_err(|_| Error::InvalidCommitment)?;
         let proof = BBSplusZKPoK::from_bytes(&bytes[G1Projective::COMPRESSED_BYTES..])
